@@ -96,6 +96,24 @@ fn main() {
     if args[1] == "merge-hashes" {
         merge_hashes(&args[2..]);
     }
+    if args[1] == "cost" {
+        // acmon cost <family> <n> <mode> <seed>   (run under callgrind by the driver)
+        if args.len() < 6 {
+            usage();
+        }
+        let n: usize = args[3].parse().unwrap_or_else(|_| usage());
+        let seed: u64 = args[5].parse().unwrap_or_else(|_| usage());
+        match work::cost_main(&args[2], n, &args[4], seed) {
+            Ok(j) => {
+                println!("{}", j);
+                std::process::exit(0);
+            }
+            Err(e) => {
+                eprintln!("cost: {}", e);
+                std::process::exit(2);
+            }
+        }
+    }
     let mut tier = Tier::Quick;
     let mut seed: u64 = 1;
     let mut shard = (0usize, 1usize);
@@ -145,6 +163,32 @@ fn main() {
     sem::install_quiet_panic_hook();
     if let Some(p) = &out {
         mem::install_crash_reporter(&format!("{}.progress", p));
+    }
+    // Stall watchdog: if no evaluation completes for a long time the shard
+    // most likely sits in a non-terminating call. That is reported as
+    // "inconclusive" (exit 3), never as a violation: wall-clock is not an
+    // oracle. It only makes such a run end quickly instead of waiting for the
+    // driver's generous global watchdog.
+    if !cfg!(miri) {
+        let limit: u64 = std::env::var("ACMON_STALL_SECS").ok().and_then(|v| v.parse().ok()).unwrap_or(180);
+        std::thread::spawn(move || {
+            let mut last = acmon::report::PROGRESS.load(std::sync::atomic::Ordering::Relaxed);
+            let mut idle = 0u64;
+            loop {
+                std::thread::sleep(std::time::Duration::from_secs(5));
+                let now = acmon::report::PROGRESS.load(std::sync::atomic::Ordering::Relaxed);
+                if now == last {
+                    idle += 5;
+                    if idle >= limit {
+                        eprintln!("STALLED: no evaluation completed for {} s (after {} evaluations)", idle, now);
+                        std::process::exit(3);
+                    }
+                } else {
+                    idle = 0;
+                    last = now;
+                }
+            }
+        });
     }
     let started = std::time::Instant::now();
     let (rep, err) = match args[1].as_str() {
